@@ -357,6 +357,8 @@ class Interp:
 
 
 def eval_history(case):
+    from ..core import set_callform
+    set_callform(0)          # histories fix the call form of every step themselves
     it = Interp()
     try:
         for s in case["steps"]:
@@ -464,6 +466,8 @@ def machine(ctx):
     class GVMachine(RuleBasedStateMachine):
         def __init__(self):
             super().__init__()
+            from ..core import set_callform
+            set_callform(0)
             self.steps = []
             self.it = Interp()
             self.done = False
